@@ -211,7 +211,7 @@ def facts : Facts := {
   typedAllocSites := 6
   decoderSkeleton := "ccc4122215142eb0a0ebde38"
   encoderSkeleton := "5cbdaefa998ed87261c39697"
-  resolverSkeleton := "c7f04d2a6c11e568bc95e877"
+  resolverSkeleton := "0b2d55f16e25bb059dc5dd7a"
   descTableSkeleton := "cbfebd4eaff63fd247cc0a76"
   topLevelUsesLimit := true
   createLocksRechecksBuildsPublishes := true
@@ -1006,11 +1006,9 @@ def facts : Facts := {
 --   if tok, err = readToken(def, &sp, true); err != nil => return
 --   call readToken
 --   return false, err
---   if tn == "" && vt.Kind() == reflect.Struct => return
 --   call vt.Kind
---   return true, nil
 --   if tok == "" || tok == ":" || tok == ">" => return
---   return tn == *tv, nil
+--   return anon || tn == *tv, nil
 --   if tok != "." => return
 --   return false, ESyntax(sp, def, "'.' or '>' expected")
 --   call ESyntax
@@ -1021,7 +1019,7 @@ def facts : Facts := {
 --   call isident0
 --   return false, ESyntax(sp, def, "struct name expected")
 --   call ESyntax
---   return tn == *tv, nil
+--   return anon || tn == *tv, nil
 -- resolver / readToken
 --   call len
 --   for p < n && unicode.IsSpace(rune(src[p]))
